@@ -2,6 +2,7 @@ package main
 
 import (
 	"fmt"
+	pkgerrors "github.com/openfga/language/pkg/go/errors"
 	"math/rand"
 	"sort"
 	"strings"
@@ -204,7 +205,8 @@ func checkJSONToDSL1(run *core.Run, m *openfgav1.AuthorizationModel, how string)
 		ok := false
 		for _, k := range inexpressible {
 			tn, rn, _ := strings.Cut(k, "#")
-			if err.Error() == fmt.Sprintf("the '%s' relation definition under the '%s' type is not supported by the OpenFGA DSL syntax yet", rn, tn) {
+			// the library's own constructor of that error (exported): the wording is not part of the property
+			if err.Error() == pkgerrors.UnsupportedDSLNestingError(tn, rn).Error() {
 				ok = true
 			}
 		}
